@@ -19,7 +19,10 @@ ROOT = os.path.dirname(HERE)
 sys.path.insert(0, ROOT)
 
 from sim.common import (ensure_pinned_env, base_seed, import_library, source_hash,  # noqa: E402
-                        derive_seed, describe, fork_call, jkey, ForkError, SRC_ROOT)
+                        derive_seed, describe, isolated_call, jkey, ForkError, SRC_ROOT,
+                        start_zygote, restore_invocation)
+
+from sim.driver import execute_isolated  # noqa: E402
 
 TIER_BUDGET = {'quick': 60.0, 'thorough': 900.0}
 
@@ -51,7 +54,7 @@ def run_digest(prop, mode, base, idx):
     """Digest of one run (event log + schedule + every observation); executed in a fork."""
     seed = derive_seed(base, prop.ID, mode, idx)
     plan = prop.generate(seed, mode)
-    res = fork_call(prop.execute, (plan,), timeout=120, label='digest run')
+    res = execute_isolated(prop, plan, None, timeout=120, label='digest run')
     h = hashlib.blake2b(digest_size=12)
     h.update(jkey(plan).encode())
     h.update(repr(res['sched']['digest']).encode())
@@ -104,7 +107,7 @@ def minimise(prop, viol, budget_s):
 
     def check(plan, sched_spec=None):
         try:
-            res = fork_call(prop.execute, (plan, sched_spec), timeout=120, label='shrink run')
+            res = execute_isolated(prop, plan, sched_spec, timeout=120, label='shrink run')
             vs, _ = prop.judge(plan, res, refs)
         except ForkError:
             return None, None
@@ -148,6 +151,7 @@ def write_replay(prop, viol, small, segments, vmin, tries, base, tier):
         'detail': vmin.get('detail'),
         'observed': describe(vmin.get('observed')), 'reference': describe(vmin.get('reference')),
         'reference_plan': vmin.get('reference_plan'),
+        'reference_request': vmin.get('reference_request', vmin.get('reference_plan')),
         'plan': small, 'schedule': segments,
         'original_ops': sum(len(t['ops']) for t in viol['plan']['tasks']),
         'minimised_ops': sum(len(t['ops']) for t in small['tasks']),
@@ -168,7 +172,7 @@ def replay_file(prop, path, quiet=False):
     if doc.get('schedule') and len(plan['tasks']) > 1:
         sched = {'mode': 'replay', 'segments': doc['schedule']}
     refs = prop.make_refs()
-    res = fork_call(prop.execute, (plan, sched), timeout=300, label='replay')
+    res = execute_isolated(prop, plan, sched, timeout=300, label='replay')
     vs, _ = prop.judge(plan, res, refs)
     want = (doc['violation'].get('kind'), doc['violation'].get('cls'))
     for v in vs:
@@ -182,18 +186,60 @@ def replay_file(prop, path, quiet=False):
     return None
 
 
-def confirm_in_fresh_process(prop, path):
+def _fresh(prop, extra, hashseed=None, timeout=900):
     env = dict(os.environ)
     env.pop('VERIF_PINNED', None)
-    env['VERIF_HASHSEED'] = '977'
-    p = subprocess.run([sys.executable, '-B', os.path.join(HERE, 'main.py'), prop.ID, '--replay',
-                        path, '--quiet'], env=env, capture_output=True, text=True, timeout=900)
-    return p.returncode == 1, (p.stdout + p.stderr)[-1500:]
+    if hashseed is not None:
+        env['VERIF_HASHSEED'] = str(hashseed)
+    return subprocess.run([sys.executable, '-B', os.path.join(HERE, 'main.py'), prop.ID] + extra,
+                          env=env, capture_output=True, text=True, timeout=timeout)
+
+
+def ref_hash(prop, request):
+    from sim.common import short_hash
+    return short_hash(repr(prop.make_refs().get(request)))
+
+
+def confirm_violation(prop, path):
+    """(confirmed, scope, log).  A violation is confirmed when the replay file reproduces in a
+    brand-new interpreter; failing that (behaviour that depends on allocator state, e.g. an
+    id()-keyed memo, replays only inside one process tree) when it reproduces from three different
+    fork servers here AND its fresh-state reference is identical in a brand-new interpreter."""
+    p = _fresh(prop, ['--replay', path, '--quiet'])
+    if p.returncode == 1:
+        p2 = _fresh(prop, ['--replay', path, '--quiet'], hashseed=977)
+        scope = 'any interpreter' if p2.returncode == 1 else 'any interpreter with PYTHONHASHSEED=0'
+        return True, scope, ''
+    from sim.common import set_slot
+    ok = True
+    for slot in (0, 1, 2):
+        set_slot(slot)
+        if replay_file(prop, path, quiet=True) is None:
+            ok = False
+    set_slot(0)
+    with open(path) as f:
+        doc = json.load(f)
+    req = doc.get('reference_request')
+    if ok and req is not None:
+        here = ref_hash(prop, req)
+        p3 = _fresh(prop, ['--refhash', path], hashseed=977)
+        there = p3.stdout.strip().splitlines()[-1] if p3.returncode == 0 and p3.stdout.strip() else None
+        if here == there:
+            return True, 'this process tree only (depends on allocator state)', ''
+        return False, None, 'reference differs between interpreters: %s vs %s' % (here, there)
+    return False, None, (p.stdout + p.stderr)[-1500:]
 
 
 # ------------------------------------------------------------------------------ main
 
 def main(argv=None):
+    # the zygote is created at a fixed point of start-up, before anything depends on the arguments
+    import_library()
+    from checks import c09, c14  # noqa: F401
+    from sim.sched import hotlines
+    hotlines()                     # static analysis only; inherited by every run through the zygote
+    start_zygote()
+    restore_invocation()
     ap = argparse.ArgumentParser()
     ap.add_argument('property')
     ap.add_argument('--tier', default=os.environ.get('VERIF_TIER') or 'quick',
@@ -202,18 +248,22 @@ def main(argv=None):
     ap.add_argument('--replay')
     ap.add_argument('--quiet', action='store_true')
     ap.add_argument('--digests')
+    ap.add_argument('--refhash')
     ap.add_argument('--max-runs', type=int, default=10 ** 9)
     ap.add_argument('--modes', default=None)
     ap.add_argument('--no-evidence', action='store_true')
     args = ap.parse_args(argv)
 
-    import_library()
     prop = load_prop(args.property)
     prop.assert_pristine()
     base = base_seed()
 
     if args.digests:
         print(json.dumps(digests_cmd(prop, base, args.digests)))
+        return 0
+    if args.refhash:
+        with open(args.refhash) as f:
+            print(ref_hash(prop, json.load(f)['reference_request']))
         return 0
     if args.replay:
         v = replay_file(prop, args.replay, quiet=args.quiet)
@@ -279,9 +329,15 @@ def main(argv=None):
         else:
             small, segments, vmin, tries = res
             replay_path = write_replay(prop, v, small, segments, vmin, tries, base, tier)
-            ok, out = confirm_in_fresh_process(prop, replay_path)
+            ok, scope, out = confirm_violation(prop, replay_path)
             if ok:
+                with open(replay_path) as f:
+                    doc = json.load(f)
+                doc['replay_scope'] = scope
+                with open(replay_path, 'w') as f:
+                    json.dump(doc, f, indent=1, default=repr)
                 print('VIOLATION property=%s replay=%s' % (prop.ID, replay_path))
+                print('# replay scope: %s' % scope)
                 print('# %s %s: %s' % (vmin['kind'], vmin['cls'], vmin.get('diff')))
                 exit_code = 1
             else:
